@@ -51,7 +51,7 @@ UReset == /\ Has("reset")
 
 \* UFS_Read + UFS_Apply of WorkUnit: what was read is what is stored; the update is one of WorkUnit's
 UApply ==
-  /\ Has("apply") /\ pend = NoMem
+  /\ Has("apply") /\ pend = NoMem /\ pa = 0
   /\ IF UE.z THEN ~known \/ cur = Empty                                  \* nothing to read: the file is empty
             ELSE ~known \/ (IsRec(cur) /\ Old.st = cur.st /\ Old.sz = cur.sz)  \* read = last write
   /\ \E l \in (IF UE.who = "r" THEN RunnerUfsLocs
@@ -63,19 +63,22 @@ UApply ==
   /\ ul' = ul + 1 /\ UNCHANGED <<cur, known, vars>>
 
 \* UFS_Trunc
-UTrunc == /\ Has("trunc") /\ pend # NoMem /\ pa = UE.a
-          /\ cur' = Empty /\ known' = TRUE
-          /\ ul' = ul + 1 /\ UNCHANGED <<pend, pa, vars>>
+\* (order of the two steps as in WorkUnit: TruncFirst = the code before its repair)
+UTrunc == /\ Has("trunc") /\ pa = UE.a
+          /\ IF TruncFirst THEN pend # NoMem /\ cur' = Empty /\ known' = TRUE /\ UNCHANGED <<pend, pa>>
+                           ELSE pend = NoMem /\ UNCHANGED <<cur, known>> /\ pend' = NoMem /\ pa' = 0
+          /\ ul' = ul + 1 /\ UNCHANGED vars
 
 \* UFS_Write
-UWrite == /\ Has("write") /\ pend # NoMem /\ pa = UE.a /\ cur = Empty
-          /\ cur' = pend /\ known' = TRUE /\ pend' = NoMem /\ pa' = 0
+UWrite == /\ Has("write") /\ pend # NoMem /\ pa = UE.a /\ (TruncFirst => cur = Empty)
+          /\ cur' = pend /\ known' = TRUE /\ pend' = NoMem
+          /\ pa' = IF TruncFirst THEN 0 ELSE pa
           /\ ul' = ul + 1 /\ UNCHANGED vars
 
 \* CrashDaemon / CrashRunner: the process is gone; an update it had applied but not written is lost, a truncated
 \* file stays truncated
 UCrash == /\ Has("crash")
-          /\ IF pa = UE.a THEN pend' = NoMem /\ pa' = 0 ELSE UNCHANGED <<pend, pa>>
+          /\ IF pa = UE.a THEN pend' = NoMem /\ pa' = 0 ELSE UNCHANGED <<pend, pa>>   \* (after its write the record is stored)
           /\ ul' = ul + 1 /\ UNCHANGED <<cur, known, vars>>
 
 UNext == UReset \/ UApply \/ UTrunc \/ UWrite \/ UCrash
